@@ -7,15 +7,18 @@
    states and replayed on the real code by harness/cmd/pingdrv. *)
 EXTENDS Ping, Json
 
-CONSTANTS MaxReplies, ReplyIds, ExportEvery, AllowSendFail
+CONSTANTS MaxReplies, ReplyIds, ExportEvery, AllowSendFail,
+          Sessions          \* sessions of the process: they share the one waiter table; each may be closed once
 VARIABLES nrep,     \* messages handed to Parse so far
           hist,     \* sequence of driver-level events
           bad,      \* some Reply step completed somebody it must not (C19_OnlyOwn)
-          raced     \* a message for p arrived between p's timer expiry and its cleanup (cannot be forced from outside)
-mcvars == <<table, nextID, pc, id, fam, closed, recv, res, panic, ref, nrep, hist, bad, raced>>
+          raced,    \* a message for p arrived between p's timer expiry and its cleanup (cannot be forced from outside)
+          sessOf,   \* Procs -> session the ping is called on
+          open      \* sessions not closed yet
+mcvars == <<table, nextID, pc, id, fam, closed, recv, res, panic, ref, nrep, hist, bad, raced, sessOf, open>>
 
 Ev(rec) == hist' = Append(hist, rec)
-Keep == UNCHANGED <<nrep, bad, raced>>
+Keep == UNCHANGED <<nrep, bad, raced, sessOf, open>>
 
 \* how the driver names the identifier of an injected message: the ping that holds it, or the
 \* offset from the next identifier to be handed out (0 = the next ping to start will get it)
@@ -24,10 +27,17 @@ Tgt(i) == IF \E p \in Procs : id[p] = i /\ pc[p] # "idle" /\ pc[p] # "start"
           ELSE [tgt |-> NoProc, off |-> (i + IdSpace - nextID) % IdSpace]
 
 MCInit == Init /\ nrep = 0 /\ hist = <<>> /\ bad = FALSE /\ raced = FALSE
+          /\ sessOf = [p \in Procs |-> CHOOSE s \in Sessions : TRUE] /\ open = Sessions
 
 \* Start and Register are one driver-level event: the identifier is taken first thing in Ping
 MCNext ==
-  \/ \E p \in Procs, f \in Fams : Start(p, f) /\ Ev([a |-> "start", p |-> p, fam |-> f]) /\ Keep
+  \/ \E p \in Procs, f \in Fams, s \in open :
+        /\ Start(p, f) /\ Ev([a |-> "start", p |-> p, fam |-> f, sess |-> s])
+        /\ sessOf' = [sessOf EXCEPT ![p] = s] /\ UNCHANGED <<nrep, bad, raced, open>>
+  \* Close of a session while pings of this or of another session are pending
+  \/ \E s \in open : /\ \E p \in Procs : pc[p] \notin {"idle", "done"}
+                     /\ CloseSession /\ open' = open \ {s} /\ Ev([a |-> "close", sess |-> s])
+                     /\ UNCHANGED <<nrep, bad, raced, sessOf>>
   \/ \E p \in Procs : Register(p) /\ UNCHANGED hist /\ Keep
   \/ \E p \in Procs : Send(p) /\ Ev([a |-> "sent", p |-> p]) /\ Keep
   \/ \E p \in Procs : AllowSendFail /\ SendFails(p) /\ Ev([a |-> "sendfail", p |-> p]) /\ Keep
@@ -42,6 +52,7 @@ MCNext ==
         /\ bad' = (bad \/ ~OnlyOwn(i, k))
         /\ raced' = (raced \/ \E p \in Procs : pc[p] = "timedOut" /\ id[p] = i)
         /\ Ev([a |-> "reply", tgt |-> Tgt(i).tgt, off |-> Tgt(i).off, kind |-> k])
+        /\ UNCHANGED <<sessOf, open>>
 
 MCSpec == MCInit /\ [][MCNext]_mcvars
 
@@ -55,9 +66,9 @@ Export == (AllDone /\ ~raced /\ (ExportEvery = 1 \/ RandomElement(1..ExportEvery
 C19_NoLeakX == C19_NoLeak \/ (PrintT(ToJson([cex |-> "C19_NoLeak", hist |-> hist])) /\ FALSE)
 C19_DistinctIdsX == C19_DistinctIds \/ (PrintT(ToJson([cex |-> "C19_DistinctIds", hist |-> hist])) /\ FALSE)
 
-View    == <<table, nextID, pc, id, fam, closed, recv, res, panic, ref, nrep, bad, raced>>
+View    == <<table, nextID, pc, id, fam, closed, recv, res, panic, ref, nrep, bad, raced, sessOf, open>>
 \* export runs keep the injected messages in the view: one exported history per distinct
 \* (state, sequence of driver-level events)
-ViewEnv == <<table, nextID, pc, id, fam, closed, recv, res, panic, ref, nrep, bad, raced, hist>>
+ViewEnv == <<table, nextID, pc, id, fam, closed, recv, res, panic, ref, nrep, bad, raced, sessOf, open, hist>>
 Sym == Permutations(Procs)
 =============================================================================
